@@ -50,6 +50,13 @@ def main():
         output.createVariable("x", "f4", ("time", "leadtime", "location", "quantile"))
         output.variables["x"][:] = input.quantile_scores
 
+    if input.num_members > 0:
+        if args.debug:
+            print("Adding %d ensemble members" % input.num_members)
+        output.createDimension("ensemble_member", input.num_members)
+        output.createVariable("ensemble", "f4", ("time", "leadtime", "location", "ensemble_member"))
+        output.variables["ensemble"][:] = input.ensemble
+
     vTime = output.createVariable("time", "f8", ("time",))
     vOffset = output.createVariable("leadtime", "f4", ("leadtime",))
     vLocation = output.createVariable("location", "i4", ("location",))
